@@ -53,6 +53,19 @@ theorem keys_nodup (precs : List (List Cls)) (hnd : ∀ p ∈ precs, p.Nodup) : 
 
 example : ∀ p ∈ [[3, 2, 1, 0], [1, 0]], p.Nodup := by decide
 
+/-- Exactly the applicable methods take part: a body is among the methods of qualifier `q` used
+    for arguments with precedence lists `precs` iff it is defined in the table under a specializer
+    tuple that is applicable to those arguments. -/
+theorem applicable_exact (t : Table) (precs : List (List Cls)) (q : Qual) (b : Body) :
+    b ∈ applicable t precs q ↔ ∃ k, Applicable k precs ∧ t k q = some b := by
+  unfold applicable
+  rw [List.mem_filterMap]
+  constructor
+  · rintro ⟨k, hk, hb⟩; exact ⟨k, (mem_keys precs k).1 hk, hb⟩
+  · rintro ⟨k, hk, hb⟩; exact ⟨k, (mem_keys precs k).2 hk, hb⟩
+
+example : Applicable [2, 0] [[3, 2, 1, 0], [1, 0]] := by simp [Applicable]
+
 /-! ## 2. running a combined method visits the daemons in the specified order -/
 
 /-- `Method.Call` on a combined method (scan for the next Wrap, `InnerCall` loops) is the
@@ -108,6 +121,33 @@ theorem spec_order (ar be : List Body) (pr : Option Body) (af : List Body)
 example : (∀ b ∈ [(⟨1, .guarded⟩ : Body), ⟨2, .direct⟩], b.mode ≠ .stop)
     ∧ (!([] : List Body).isEmpty || (some (⟨3, .stop⟩ : Body)).isSome || !([] : List Body).isEmpty) = true := by
   decide
+
+theorem specArounds_res (inner : Out) (hasInner : Bool) (ar : List Body)
+    (hi : inner.res ≠ .noApplicable) : (specArounds inner hasInner ar).res ≠ .noApplicable := by
+  induction ar with
+  | nil => exact hi
+  | cons b rest ih =>
+    simp only [specArounds, runAround]
+    cases b.mode <;> cases (!rest.isEmpty || hasInner) <;> simp
+    all_goals
+      cases hr : (specArounds inner hasInner rest).res <;> simp_all
+
+/-- no-applicable-method is signalled exactly when no method of any qualifier is applicable -/
+theorem spec_noApplicable_iff (E : Env) (t : Table) (cs : List Cls) :
+    (spec E t cs).res = .noApplicable ↔ ∀ q, applicable t (cs.map E.cpl) q = [] := by
+  unfold spec
+  simp only []
+  constructor
+  · intro h q
+    by_cases hc : ((applicable t (cs.map E.cpl) .around).isEmpty && (applicable t (cs.map E.cpl) .before).isEmpty
+        && (applicable t (cs.map E.cpl) .primary).isEmpty && (applicable t (cs.map E.cpl) .after).isEmpty) = true
+    · simp only [Bool.and_eq_true, List.isEmpty_iff] at hc
+      obtain ⟨⟨⟨h1, h2⟩, h3⟩, h4⟩ := hc
+      cases q <;> assumption
+    · rw [if_neg hc] at h
+      exact absurd h (specArounds_res _ _ _ (by simp [specInner]))
+  · intro h
+    simp [h .around, h .before, h .primary, h .after]
 
 /-! ## 3. the cache and the fast path stay a function of the method table -/
 
